@@ -57,7 +57,7 @@ def same_state(cx, label, before, after):
     cx.check(label + ":leaves", and_(*conj), note="%d numeric leaves of the registry dump" % len(conj))
 
 
-def h_overlay(cx, timeline, mr, limit_kind, menu, malformed, band=False):
+def h_overlay(cx, timeline, mr, limit_kind, menu, malformed, band=False, history=False):
     env.install(cx)
     A = acn()
     from acnportal.algorithms import BaseAlgorithm
@@ -101,6 +101,10 @@ def h_overlay(cx, timeline, mr, limit_kind, menu, malformed, band=False):
                 state_before["dump"] = flatten(sim._to_registry()[0]["context_dict"])
                 if malformed == "unknown_station":
                     sched["Z"] = [1.0] * max(L, 1)
+                elif malformed == "unequal_one":
+                    # a long first row and a row of length exactly 1 (what array broadcasting would silently stretch)
+                    sched["A"] = [1.0] * (L + 2)
+                    sched["B"] = [2.0]
                 else:
                     sched["A"] = [1.0] * (L + 1)
                     sched["B"] = [2.0] * (L + 2)
@@ -108,7 +112,7 @@ def h_overlay(cx, timeline, mr, limit_kind, menu, malformed, band=False):
             submitted.append((t, sched, L))
             return sched
 
-    sim = make_sim(cx, net, Algo(), evs)
+    sim = make_sim(cx, net, Algo(), evs, store_history=history)
     sim_ref[0] = sim
     raised = None
     with warnings.catch_warnings(record=True) as w:
@@ -179,19 +183,22 @@ def jobs(tier):
         M3 = [(("A",), 1), (("B", "A"), 2), (("A", "B"), 3)]
         M2 = [(("A", "B"), 1), (("B", "A"), 2)]
         cfgs = [(T1, 1, None, MENU_Q[:5], None), (T2, None, "sym", M2, None), (T1, 2, None, M3, None),
-                (T1, 1, None, M3, "unknown_station"), (T2, 1, None, M3, "unequal"), (T1, 1, None, M2, None, True)]
+                (T1, 1, None, M3, "unknown_station"), (T2, 1, None, M3, "unequal"), (T1, 1, None, M2, None, True), (T1, 1, None, M3, "unequal_one"),
+                (T2, 2, None, [(("A", "B"), 3), (("A",), 2)], None, False, True)]
     else:
         M3 = [(("A",), 1), (("B", "A"), 2), (("A", "B"), 3)]
         cfgs = [(T1, 1, None, MENU_T, None), (T2, 1, None, MENU_T, None), (T2, None, "sym", M3, None), (T1, 2, "sym", [(("A", "B"), 1), (("B", "A"), 2)], None), (T1, 3, None, MENU_T, None),
                 (T1, 1, None, MENU_Q, "unknown_station"), (T2, 1, None, MENU_Q, "unequal"), (T2, None, None, M3, "unequal"),
-                (T1, 1, None, MENU_Q, None, True), (T2, 2, None, M3, None, True)]
+                (T1, 1, None, MENU_Q, None, True), (T2, 2, None, M3, None, True), (T2, 1, None, M3, "unequal_one"), (T1, None, None, M3, "unequal_one"),
+                (T1, 1, None, MENU_Q, None, False, True), (T2, 2, "sym", M3, None, False, True)]
     for cfg in cfgs:
         tl, mr, lim, menu, mal = cfg[:5]
-        band = len(cfg) > 5
-        name = "overlay[tl=%s,mr=%s,limit=%s,menu=%d,malformed=%s%s]" % ("".join("%s%d%d" % x for x in tl), mr, lim, len(menu), mal, ",band" if band else "")
+        band = len(cfg) > 5 and cfg[5]
+        hist = len(cfg) > 6 and cfg[6]
+        name = "overlay[tl=%s,mr=%s,limit=%s,menu=%d,malformed=%s%s%s]" % ("".join("%s%d%d" % x for x in tl), mr, lim, len(menu), mal, ",band" if band else "", ",schedule_history" if hist else "")
         tags = ("malformed_submitted",) if mal else ("terminated", "schedule_beyond_horizon") + (("long_schedule_in_last_period",) if max(m[1] for m in menu) > 1 else ()) + (("empty_schedule",) if menu[0][1] == 0 else ()) + (("infeasible_schedule_only_warned",) if lim else ())
-        js.append(Job(name, h_overlay, dict(timeline=tl, mr=mr, limit_kind=lim, menu=menu, malformed=mal, band=band), functions=FUNCS, expect_tags=tags,
+        js.append(Job(name, h_overlay, dict(timeline=tl, mr=mr, limit_kind=lim, menu=menu, malformed=mal, band=band, history=hist), functions=FUNCS, expect_tags=tags,
                       max_paths=200000, timeout=3000,
-                      bounds=dict(stations=2, periods=4, invocations="<=4", shapes_per_invocation=len(menu), lengths="1..3", max_recompute=mr, constraint=lim, pilot_values=("[-0.0009, 32.0009]" if band else "[0, 32]")),
+                      bounds=dict(stations=2, periods=4, invocations="<=4", shapes_per_invocation=len(menu), lengths="1..3", max_recompute=mr, constraint=lim, pilot_values=("[-0.0009, 32.0009]" if band else "[0, 32]"), store_schedule_history=bool(hist)),
                       cost=len(menu) ** (4 if mr == 1 else 3) * (2 if lim else 1)))
     return js
